@@ -259,6 +259,9 @@ def subsequence_filter(prog, b, source_param, pred_ok):
             return False, 'retain closure does not return the predicate'
         pol = pred_ok(cb, r, ('param', 2, cb.name_of(2)))
         if pol is None:
+            ELEM = ('const', 'marker', 'element', None)
+            pol = pred_ok(b, strip(subst_closure(cb, r, list(caps), [ELEM])), ELEM)
+        if pol is None:
             return False, 'retain closure does not apply the expected predicate to its element: ' + mir.show(r, maxdepth=4)
         if (not neg) != pol:
             return False, 'retain keeps the elements on the wrong edge of the predicate'
@@ -315,6 +318,10 @@ def subsequence_filter(prog, b, source_param, pred_ok):
         if not (isinstance(r, tuple) and r[0] == 'call'):
             return False, 'filter closure does not return the predicate'
         pol = pred_ok(cb, r, ('param', 2, cb.name_of(2)))
+        if pol is None:
+            # values the closure captured (a `let robot = self.kinematics.as_ref();` hoisted out of it) are written back in
+            ELEM = ('const', 'marker', 'element', None)
+            pol = pred_ok(b, strip(subst_closure(cb, r, list(caps), [ELEM])), ELEM)
         if pol is None:
             return False, 'filter closure does not apply the expected predicate to its element: ' + mir.show(r, maxdepth=4)
         if (not neg) != pol:
@@ -901,3 +908,26 @@ def peval(prog, t, rounds=4):
                     return simp(subst_params(rv[0][0], x[2:]), d - 1)
         return x
     return simp(t, rounds)
+
+
+def len_const(b, t):
+    """the integer a range bound denotes: a constant, or `x.len()` of a local / parameter whose type is a fixed-size array"""
+    import re as _re
+    t = strip(t)
+    c = const_val(t)
+    if isinstance(c, int) and not isinstance(c, bool):
+        return c
+    if isinstance(t, tuple) and t[0] == 'call' and len(t) == 3 and mir.cname(t[1]).split('::')[-1] == 'len':
+        v = t[2]
+        while isinstance(v, tuple) and v[0] in ('ref', 'deref', 'cast'):
+            v = v[1]
+        loc = None
+        if isinstance(v, tuple) and v[0] in ('param', 'mparam', 'mutb'):
+            loc = v[1]
+        elif isinstance(v, tuple) and v[0] == 'var':
+            loc = v[2]
+        if loc is not None:
+            m = _re.search(r'\[[^\[\]]*; (\d+)\]\s*$', b.local_ty(loc).strip())
+            if m:
+                return int(m.group(1))
+    return None
